@@ -5,7 +5,7 @@
 set -u
 export GOFLAGS=-mod=mod GOPROXY=off GOSUMDB=off GOTOOLCHAIN=local
 id=$1; name=${2:-$id}
-src=/tmp/seed-out/$id
+src=${SEED_OUT:-/tmp/seed-out}/$id
 wt=/tmp/seedverify-$id-$$
 git -C /repo worktree add -q --detach $wt HEAD || exit 2
 cleanup() { git -C /repo worktree remove --force $wt; }
@@ -26,7 +26,7 @@ PY
 )
 for f in $(find $src/demo -type f \( -name "*.go" -o -name "*.sqlite" -o -name "*.json" -o -name "*.sh" \)); do
   # placement: same relative dir as in the seed worktree
-  rel=$(cd /tmp/seed-$id 2>/dev/null && git status --porcelain | awk '{print $2}' | grep "$(basename $f)\$" | head -1)
+  rel=$(cd ${SEED_WT:-/tmp/seed}-$id 2>/dev/null && git status --porcelain | awk '{print $2}' | grep "$(basename $f)\$" | head -1)
   [ -z "$rel" ] && rel=$(python3 -c "
 import json,re,glob
 s=open('$src/meta.json').read()
